@@ -266,7 +266,29 @@ theorem C12_composite_example (a b d : ℤ) :
       (List.replicate a.toNat 0 ++ List.replicate b.toNat d, d) := by
   simp [Proofs.C12Shape.toks, Proofs.C12Shape.toksList, Proofs.C12Shape.toks_once, Proofs.C12Shape.toks_const0]
 
+/-- `const` where float64 is exact (a whole number `k` of instances per second dividing 10⁹, a whole number `S` of seconds):
+the REGENERATED `NewConst` emits k·S tokens, token i at i·(10⁹/k), and finishes after S seconds. -/
+theorem C12_const_shape (k q S s0 : ℤ) (hk : 0 < k) (hq : k * q = 1000000000) :
+    Proofs.C12Shape.toks (Gen.Schedule.NewConst (k : ℝ) (S * 1000000000)) s0 =
+      ((List.range (k * S).toNat).map (fun (i : ℕ) => s0 + (i : ℤ) * q), s0 + S * 1000000000) :=
+  Proofs.C12Shape.toks_const_exact k q S s0 hk hq
+
+/-- The token times the executable Spec computes for a startup profile — the ones every correspondence case compares
+with what the REAL schedule hands out (`fail:step-shape`) — are those of the composite of the regenerated
+`NewOnce` / `NewConst` / `NewInstanceStep`, for every composite of once / const / instance_step parts for which the Spec
+computes them at all. -/
+theorem C12_profile_tokens (ps : List Spec.C12.Part) (s0 : ℤ) (l : List ℤ)
+    (h : Spec.C12.partsToks ps s0 = some l) :
+    l = (Proofs.C12Shape.toksList (ps.map Proofs.C12Shape.schedOf) s0).1 :=
+  Proofs.C12Shape.partsToks_eq ps s0 l h
+
 /-! ### non-vacuity -/
+
+/-- hypotheses of `C12_profile_tokens` / `C12_const_shape`: a composite the Spec computes -/
+example : Spec.C12.partsToks [.once 2, .const 0 500, .step 1 3 1 1000, .const 2 1000] 0 =
+    some [0, 0, 500000000, 1500000000, 2500000000, 2500000000, 3000000000] := by decide
+example : (0 : ℤ) < 4 ∧ (4 : ℤ) * 250000000 = 1000000000 := by decide
+
 
 /-- startup tokens at 0, 1 s, 2 s; the loop starts two instances (the second after sleeping on its timer), ammo runs out
 while the third `Wait` is asleep, and that call is woken by the cancelled start context -/
